@@ -185,7 +185,10 @@ CD_LOOPS = [("while {A}; do {B}; done", ["cd sub", "cd sub && false", "cd nosuch
             ("while true; do {A} || exit 0; {B}; done", [])]
 CD_A = ["cd sub", "cd sub && false", "cd sub || true", "cd nosuch", "cd sub; false", "! cd sub", "cd sub > /dev/null", "X=1 cd sub", "pushd sub",
         "cd ./sub/", "cd sub/../sub", "cd sub && cd ..", "cd sub; cd sub", "cd -- sub", "cd -P sub", 'cd "$PWD"/sub', "cd $(echo sub)", "cd sub/.. && cd sub",
-        "cd /", "cd .", "cd", "cd -", "cd sub && cd -", "cd ~-", "cd ~+", "cd - > /dev/null", "builtin cd sub", "command cd sub", "eval cd sub", "test -d sub && cd sub", "cd sub 2> /dev/null || exit 1"]
+        "cd /", "cd .", "cd", "cd -", "cd sub && cd -", "cd ~-", "cd ~+", "cd - > /dev/null", "builtin cd sub", "command cd sub", "eval cd sub", "test -d sub && cd sub", "cd sub 2> /dev/null || exit 1",
+        # targets bash rewrites: the directory entered is not the one the word spells
+        "cd $'sub'", "cd $'\\x73ub'", 'cd $"sub"', "cd ${nope:-sub}", "cd ${nope-sub}", "cd $((0))", "cd ${#nope}", "cd ${!nope}", "cd s?b", "cd su[b]", "cd s*b",
+        "cd {sub,}", "cd $DD/sub", "cd sub/$DD", "cd su`printf b`"]
 # every chain of two and three directory changes over { sub, .., - } (OLDPWD is the directory the LAST cd left)
 CD_A += [" && ".join("cd " + t for t in ch) for n in (2, 3) for ch in itertools.product(["sub", "..", "-"], repeat=n)]
 CD_A = list(dict.fromkeys(CD_A))
